@@ -112,7 +112,7 @@ def gen_plan(rng, run_index, tier, opts):
             tk["now"] = T
         if form in ("intidx", "intlist") and rng.random() < 0.4:
             # indices are taken as given: any order, repeats allowed (the same set of steps)
-            tk["idx_order"] = rng.choice(["rev", "rot", "zip", "dup"])
+            tk["idx_order"] = rng.choice(["rev", "rot", "zip", "dup", "neg", "neg"])
         if form != "date" and rng.random() < 0.05:
             tk["steps"] = []   # an empty window pins nothing
             tk["empty"] = True
@@ -173,7 +173,7 @@ def bool_vars(op):
 # --------------------------------------------------------------------------- executor
 
 
-def _ordered(W, how):
+def _ordered(W, how, T=None):
     """The steps of an index-form window in the order the plan asks for (same set of steps)."""
     lst = sorted(W)
     if how == "rev":
@@ -185,6 +185,8 @@ def _ordered(W, how):
         return lst[1::2] + lst[0::2]
     if how == "dup":
         return lst + lst[:1]
+    if how == "neg" and T:
+        return [i - T for i in lst]       # positions counted from the end, as numpy indexing reads them
     return lst
 
 
@@ -316,9 +318,9 @@ class Desk:
         elif tk["form"] == "npboollist":
             I = list(np.array([i in W for i in range(T)], dtype=bool))   # list(mask): numpy.bool_ scalars, not Python bools
         elif tk["form"] == "intidx":
-            I = np.array(_ordered(W, tk.get("idx_order")), dtype=int)       # "indices on timegrid" (docstring of fix_time_window)
+            I = np.array(_ordered(W, tk.get("idx_order"), T), dtype=int)       # "indices on timegrid" (docstring of fix_time_window)
         elif tk["form"] == "intlist":
-            I = [int(i) for i in _ordered(W, tk.get("idx_order"))]
+            I = [int(i) for i in _ordered(W, tk.get("idx_order"), T)]
             if not I:
                 I = np.array([], dtype=int)
         # --- twin: window-less set-up on fresh objects
@@ -507,7 +509,10 @@ class Desk:
                 xh = x_ref[:n]
                 mv = refsolve.max_violation(op, xh, bool_vars(op))
                 vh = float(-np.asarray(op.c, float) @ xh)
-                if mv <= 1e-6 and abs(vh - self.v_prev) <= tolv:
+                vx = float(-np.asarray(op.c, float) @ x)
+                if mv <= 1e-6 and abs(vh - self.v_prev) <= tolv and abs(vx - float(res.value)) <= tolv:
+                    # (the excuse needs the reported value to be the value of the returned point: then that point is
+                    # simply worse than the held one)
                     self.stats["peer_suboptimal"] = self.stats.get("peer_suboptimal", 0) + 1
                     self.events.append((k, "peer-suboptimal"))
                     if res.value < self.v_prev:
